@@ -87,6 +87,7 @@ func diffSig(d string) string {
 		}
 		return t[:i]
 	}
+	d = strings.ReplaceAll(strings.ReplaceAll(d, "\u00a0", " "), "\t", "    ")
 	for _, l := range strings.Split(d, "\n") {
 		if l == "" {
 			continue
